@@ -95,6 +95,7 @@ def pack_standard(evs):
                 base[k] = int(e[k])
         if "fin" in e:
             base["fin"] = bool(e["fin"])
+        base["prior_sampling"] = bool(e.get("prior_sampling", False))
         if "train_on_empty" in e:
             base["train_on_empty"] = bool(e["train_on_empty"])
         if "phase" in e:
